@@ -14,7 +14,7 @@ from .. import docspace as D
 from .. import explore as X
 from ..core import Acc, Viol, digest
 
-DUR = ['4', '8.', '2..', '16%3', '8q', '8qq', '4p', '4P', '']
+DUR = ['4', '8.', '2..', '16%3', '8q', '8qq', '4p', '4P', '', '8.q', '16.P']
 PIT = ['c', 'bb', 'B', 'FF', 'ccc']
 ACC = ['', '#', '-', '##', '--', 'n', '#X', '-y']
 REST_SIG = [';', '(', ')', "'", '{', '}']
